@@ -549,9 +549,11 @@ def c08_compare(rq, impl, model):
     # direct all-or-nothing predicate on the implementation
     f = rq.split(" ")
     dest = f[3] if len(f) > 3 else ""
-    for pre in ("nu8:", "long:", "lnkrel:", "lnkabs:", "hard:"):
+    for pre in ("nu8:", "long:", "lnkrel:", "lnkabs:", "hard:", "stale:"):
         if dest.startswith(pre):
             dest = dest[len(pre):]
+    if dest.startswith("deep:"):
+        dest = "absent"      # a directory or an unresolvable path: reading it gives nothing
     st = impl.split(" ")[0]
     after = impl.split("dest=", 1)[1] if "dest=" in impl else ""
     before = {"absent": "absent", "devfull": "devfull", "nodir": "nodir"}.get(dest, "file:" + dest[4:] if dest.startswith("pre:") else "?")
@@ -583,6 +585,30 @@ PROPS["C08"] = {
         "Lace.C08.compile_fail_at",
         "Lace.C08.compile_unwritable",
         "Lace.C08.emitAll_fail_at",
+        "Lace.C08.compileP_all_or_nothing",
+        "Lace.C08.no_stray_entries",
+        "Lace.C08.no_new_names",
+        "Lace.C08.hard_link_other_name_unchanged",
+        "Lace.C08.old_inodes_unchanged",
+        "Lace.C08.live_link_preserved",
+        "Lace.C08.dangling_link_replaced",
+        "Lace.C08.dest_location_regular_file",
+        "Lace.C08.tmp_name_exists_refused",
+        "Lace.C08.unresolvable_refused",
+        "Lace.C08.not_replaceable_refused",
+        "Lace.C08.compileP_status",
+        "Lace.C08.compileP_refines_compileFs",
+        "Lace.C08.compileP_name_refines_compileFs",
+        "Lace.C08.writeAllOrNothingP_spec",
+        "Lace.C08.compileP_spec",
+        "Lace.C08.Shape.ofPlainDir",
+        "Lace.C08.Shape.ofNotLink",
+        "Lace.C08.Shape.ofResolves",
+        "Lace.C08.Shape.ofUnresolvable",
+        "Lace.C08.stale_tmp_link_truncates_before_fix",
+        "Lace.C08.stale_tmp_link_refused",
+        "Lace.C08.symlink_depth_counterexample_before_fix",
+        "Lace.C08.symlink_depth_refused",
     ],
     "needs_bin": True,
     "compare": c08_compare,
@@ -591,17 +617,29 @@ PROPS["C08"] = {
     "group": lambda d: d["impl"].split(" ")[0],
     "rule": ("process mode: `lace compile src dest` with an emission failure (out-of-range label reference) injected at "
              "every statement position k of n (and no failure), and other invalid sources; destination pre-existing "
-             "with known random contents, absent, /dev/full, or in a non-existent directory; in two cases out of five "
-             "under a file size limit (RLIMIT_FSIZE with SIGXFSZ ignored: a write to a regular file fails after exactly "
-             "that many bytes, as on a full disk), plus an exhaustive sweep of the limit over every byte position 0..8 of "
-             "a 6-byte object file x 3 destinations; observed: exit status, the destination's bytes afterwards and the "
-             "number of files left behind next to it, compared with the file-system model of the Compile arm (destination, "
-             "temporary sibling, fault parameter) driven by the assembler model, and checked directly against the "
+             "with known random contents, absent, a private /dev/full-like device node, or in a non-existent directory; one "
+             "regular destination in three is special: a name that is not valid UTF-8, a 255-byte name, a live or dangling "
+             "symbolic link with a relative or absolute target in a sub-directory, a file with a second hard link; plus "
+             "`stale:` (symbolic links .lace-tmp<n> -> the destination for the next 3,000 process ids, the spawned one "
+             "verified: compile must refuse and remove nothing) and `deep:39..42` (n/n/.../n through a link to the working "
+             "directory: around the limit of 40 link traversals compile must refuse and leave the link alone); in two "
+             "cases out of five under a file size limit (RLIMIT_FSIZE with SIGXFSZ ignored: a write to a regular file fails "
+             "after exactly that many bytes, as on a full disk), plus an exhaustive sweep of the limit over every byte "
+             "position 0..8 of a 6-byte object file x 13 destinations; observed: exit status, the bytes read THROUGH THE "
+             "DESTINATION PATH afterwards and the number of stray entries in the working directory and the sub-directory "
+             "(+1 if the other hard-link name changed), compared with the path-level file-system model of "
+             "write_all_or_nothing / the Compile arm (PathFs.compileP: directories, links, inodes, path resolution, fault "
+             "parameter) run on the same file system and driven by the assembler model, and checked directly against the "
              "all-or-nothing predicate."),
-    "trusted": ["real file-system semantics beyond: create fails in a missing directory, /dev/full accepts open but no data, "
-                "a size limit makes write_all fail after a short write, rename is atomic"],
-    "assumptions": ["outside the model: a crash (SIGKILL, power loss) between two file operations; a failing rename is in the model "
-                    "(theorem) but not injected on the implementation"],
+    "trusted": ["real file-system semantics beyond: path resolution follows links (relative targets from the link's directory), "
+                "create fails in a missing directory and follows links, create_new fails on any existing name, canonicalize "
+                "reports NotFound vs. other errors (ELOOP after 40 links), /dev/full accepts open but no data, "
+                "a size limit makes write_all fail after a short write, rename is atomic and replaces the destination's own "
+                "entry (a link is not followed), a renamed-over file keeps its other names"],
+    "assumptions": ["outside the model: permissions, `.`/`..`, mount points, concurrent writers, a crash (SIGKILL, power loss) "
+                    "between two file operations; a failing rename is in the model (theorem) but not injected on the "
+                    "implementation; the theorems cover every destination except a dangling symbolic link reached through symbolic "
+                    "links (DESIGN.md §11.3 'C08 paths')"],
 }
 
 
